@@ -10,8 +10,10 @@ def inversion_replay(ctx):
         return dict(notes=["report-inversion replay: not run"])
     d = json.load(open(p))
     return dict(coverage=dict(report_inversion_replay=d),
-                notes=["report-inversion replay on the real code: last delivered report was not the final map in %d of %d trials"
-                       % (d.get("last_delivered_report_is_not_the_final_map", -1), d.get("trials", 0))])
+                notes=["report-inversion replay on the real code: last delivered report was not the final map in %d of %d trials; "
+                       "with a real hub.Hub as receiver the last VisibleRemoteServicesUpdated was stale in %d of %d trials"
+                       % (d.get("last_delivered_report_is_not_the_final_map", -1), d.get("trials", 0),
+                          d.get("hub_last_VisibleRemoteServicesUpdated_is_stale", -1), d.get("hub_trials", 0))])
 
 
 SPEC = dict(
